@@ -183,6 +183,12 @@ func c19Child(spec string) {
 		c19GCChurn(rounds)
 		return
 	}
+	if strings.HasPrefix(spec, "frozen/") {
+		var n int
+		fmt.Sscanf(spec, "frozen/%d", &n)
+		c19Frozen(n)
+		return
+	}
 	if strings.HasPrefix(spec, "pause/") {
 		var secs, n int
 		fmt.Sscanf(spec, "pause/%d/%d", &secs, &n)
@@ -493,6 +499,76 @@ func c19Pause(pause time.Duration, n int) {
 	json.NewEncoder(os.Stdout).Encode(res)
 }
 
+// c19Frozen: the whole process is stopped (SIGSTOP: a debugger, a container freezer, a suspended VM) while
+// hundreds of goroutines are inside or queued for RandomID, and continued 1.3 s, 2.5 s and 6 s later. Whatever
+// runs on timers started before the stop (a wait limit on a lock, a lease on generator state) finds them all
+// expired at once on resume. Every ID of the three phases is kept; duplicates are exact.
+func c19Frozen(g int) {
+	res := c19Result{G: g, Procs: runtime.GOMAXPROCS(0), RaceEnabled: raceEnabled}
+	var all []uu.ID
+	pid := os.Getpid()
+	for _, freeze := range []string{"1.3", "2.5", "6"} {
+		cmd := exec.Command("sh", "-c", fmt.Sprintf("sleep 0.25; kill -STOP %d; sleep %s; kill -CONT %d", pid, freeze, pid))
+		if err := cmd.Start(); err != nil {
+			fmt.Fprintln(os.Stderr, "cannot start the freezer:", err)
+			os.Exit(3)
+		}
+		var stop int32
+		locals := make([][]uu.ID, g)
+		var wg sync.WaitGroup
+		for gi := 0; gi < g; gi++ {
+			wg.Add(1)
+			go func(gi int) {
+				defer wg.Done()
+				var l []uu.ID
+				for atomic.LoadInt32(&stop) == 0 {
+					l = append(l, uu.RandomID())
+				}
+				locals[gi] = l
+			}(gi)
+		}
+		before := time.Now()
+		_ = cmd.Wait() // returns once the process has been continued
+		if time.Since(before) > 1200*time.Millisecond {
+			res.Handoffs++ // (used as: freezes that took place)
+		}
+		time.Sleep(150 * time.Millisecond)
+		atomic.StoreInt32(&stop, 1)
+		wg.Wait()
+		for _, l := range locals {
+			all = append(all, l...)
+		}
+	}
+	sort.Slice(all, func(i, j int) bool {
+		if all[i].Higher != all[j].Higher {
+			return all[i].Higher < all[j].Higher
+		}
+		return all[i].Lower < all[j].Lower
+	})
+	for i, id := range all {
+		res.Draws++
+		if id.Version() != 4 || id.Variant() != 1 || id.Higher>>12&0xf != 4 || id.Lower>>62 != 2 {
+			res.BadBits++
+			if res.FirstBad == "" {
+				res.FirstBad = id.String()
+			}
+		}
+		for b := 0; b < 64; b++ {
+			res.Ones[b] += int64(id.Lower >> uint(b) & 1)
+			res.Ones[64+b] += int64(id.Higher >> uint(b) & 1)
+		}
+		if i > 0 && all[i-1] == id {
+			res.Duplicates++
+			if res.FirstDuplicate == "" {
+				res.FirstDuplicate = id.String()
+			}
+		} else {
+			res.Distinct++
+		}
+	}
+	json.NewEncoder(os.Stdout).Encode(res)
+}
+
 // c19RaceBlocks splits race detector logs into report blocks.
 func c19RaceBlocks(dir string) []string {
 	var blocks []string
@@ -753,6 +829,10 @@ func runC19(c *rt.Ctx) {
 	jobs = append(jobs, &job{g: 1, procs: 16, rep: 0, name: "lonely-main-plus-timers"}, &job{g: 1, procs: 2, rep: 1, name: "lonely-main-plus-timers-p2"})
 	// bursts of hundreds and thousands of simultaneous callers (a server under load): far more goroutines inside the call than CPUs
 	jobs = append(jobs, &job{g: 2048, procs: 16, rep: 0, name: "burst-g2048-p16"}, &job{g: 512, procs: 4, rep: 0, name: "burst-g512-p4"}, &job{g: 4000, procs: 2, rep: 0, name: "burst-g4000-p2"})
+	// more scheduler slots than the usual machine has (GOMAXPROCS set by hand or a large host): per-P or per-slot state indexed beyond a fixed table
+	jobs = append(jobs, &job{g: 96, procs: 32, rep: 0, name: "manyprocs-g96-p32"}, &job{g: 256, procs: 64, rep: 1, name: "manyprocs-g256-p64"}, &job{g: 48, procs: 24, rep: 0, name: "manyprocs-g48-p24"}, &job{g: 300, procs: 100, rep: 1, name: "manyprocs-g300-p100"})
+	// the process is frozen and continued while hundreds of goroutines draw
+	jobs = append(jobs, &job{g: 600, procs: 16, rep: 0, name: "frozen-g600"})
 	{
 		sem := make(chan struct{}, 3) // a few children at a time: they also perturb each other's scheduling
 		var wg sync.WaitGroup
@@ -768,6 +848,9 @@ func runC19(c *rt.Ctx) {
 				}
 				if strings.HasPrefix(j.name, "lonely") {
 					spec = fmt.Sprintf("lonely/%d", draws*2)
+				}
+				if strings.HasPrefix(j.name, "frozen") {
+					spec = fmt.Sprintf("frozen/%d", j.g)
 				}
 				j.res, j.blocks, j.stderr, j.err = runChild(j.name, spec)
 			}(j)
@@ -883,7 +966,7 @@ func runC19(c *rt.Ctx) {
 					} else if len(blocks) > 0 {
 						c.Inconclusive(fmt.Sprintf("%d race reports without uu frames in %s (harness race?)", len(blocks), name))
 					}
-					if g > 1 && res.Handoffs == 0 && !strings.HasPrefix(name, "pause") {
+					if g > 1 && res.Handoffs == 0 && !strings.HasPrefix(name, "pause") && !strings.HasPrefix(name, "frozen") {
 						c.Inconclusive("configuration " + name + " showed no goroutine hand-off at all")
 					}
 					stats = append(stats, cfgStat{g, procs, rep, int64(res.Draws), res.Handoffs, res.MaxRun, res.Distinct, res.MinDistinctWindow, len(blocks)})
@@ -898,12 +981,20 @@ func runC19(c *rt.Ctx) {
 						}
 					} else if strings.HasPrefix(name, "pause") {
 						w.ClassN("config-silence-then-burst", 1)
+					} else if strings.HasPrefix(name, "manyprocs") {
+						w.ClassN("config-more-scheduler-slots-than-cores", 1)
+					} else if strings.HasPrefix(name, "frozen") {
+						w.ClassN("config-process-frozen-and-continued-while-drawing", res.Handoffs)
+						w.Sample(name, map[string]any{"draws": res.Draws, "distinct": res.Distinct, "freezes_that_took_place": res.Handoffs})
+						if res.Handoffs < 3 {
+							c.Inconclusive(fmt.Sprintf("configuration %s: only %d of 3 freezes took place", name, res.Handoffs))
+						}
 					} else if strings.HasPrefix(name, "burst") {
 						w.ClassN("config-burst-of-callers", 1)
 					} else {
 						w.ClassN(fmt.Sprintf("config-G%d", g), 1)
 					}
-					if g > 1 {
+					if g > 1 && !strings.HasPrefix(name, "frozen") {
 						w.ClassN("concurrent-handoffs", res.Handoffs)
 					}
 					if rep == 0 && procs == 16 {
@@ -936,6 +1027,8 @@ func runC19(c *rt.Ctx) {
 	c.Require("per-bit-monitor", 1)
 	c.Require("config-silence-then-burst", int64(len(pauses)))
 	c.Require("config-burst-of-callers", 3)
+	c.Require("config-more-scheduler-slots-than-cores", 4)
+	c.Require("config-process-frozen-and-continued-while-drawing", 3)
 	c.Require("config-single-goroutine-plus-timer-callbacks", 2)
 	c.Require("config-scheduler-resized-while-drawing", 2)
 	for _, g := range []int{1, 2, 8, 64} {
